@@ -179,6 +179,31 @@ class Machine:
                      'rstrip', 'expandtabs')
     LOSSY_ERRORS = ('ignore', 'replace', 'xmlcharrefreplace', 'namereplace')
 
+    def fragile_split(self):
+        """`cmd, args = line.split(b' ')`: a tuple-unpack of a split into k
+        names holds for every line only with maxsplit = k - 1 (and a guard
+        that the separator occurs); otherwise a line with more separators -
+        `REJECTED EXTERNAL DBUS_COOKIE_SHA1`, `ERROR "two words"` - raises
+        ValueError out of the dispatcher.  -> list of (line, text)."""
+        out = []
+        for n in ast.walk(self.dispatch.node):
+            if isinstance(n, ast.Assign) and len(n.targets) == 1 and \
+                    isinstance(n.targets[0], (ast.Tuple, ast.List)) and \
+                    isinstance(n.value, ast.Call) and \
+                    isinstance(n.value.func, ast.Attribute) and \
+                    n.value.func.attr in ('split', 'rsplit'):
+                k = len(n.targets[0].elts)
+                a = n.value.args
+                ms = a[1].value if len(a) >= 2 and isinstance(
+                    a[1], ast.Constant) else None
+                for kw in n.value.keywords:
+                    if kw.arg == 'maxsplit' and isinstance(kw.value,
+                                                           ast.Constant):
+                        ms = kw.value.value
+                if ms != k - 1:
+                    out.append((n.lineno, ast.unparse(n)[:60]))
+        return out
+
     def lossy_dispatch_key(self):
         """The dispatch name must be an INJECTIVE image of the command word
         the peer sent: a decoding that drops or replaces bytes, or a case /
